@@ -259,7 +259,10 @@ class Converter(utils.ContextWeakrefMixin):
 
   def build_set(self, node, content):
     """Create a VM set from the given sequence."""
-    content = list(content)  # content might be a generator
+    # Rebind the elements at the current node (as build_list does): pasting
+    # them with their original origins makes them invisible from later nodes
+    # whenever evaluating the display moved to a new CFG node in between.
+    content = [var.AssignToNewVariable(node) for var in content]
     value = abstract.Instance(self.set_type, self.ctx)
     value.merge_instance_type_parameter(
         node, abstract_utils.T, self.build_content(content)
